@@ -273,6 +273,15 @@ ViewUnique == \A i, j \in 1..Len(rview) : i # j => rview[i].k # rview[j].k
 ViewCapped == Len(rview) <= Cap
 ViewOnlyAccessed == {rview[i].k : i \in 1..Len(rview)} \subseteq accessed
 
+\* window predicate for targeted behaviour emission (not a property): evictStale has halved
+\* every entry, at least one key dropped to zero and the survivors are no longer in order,
+\* i.e. a stale hotter key fell below a fresh one in the same pass that removes a key
+EvictWindow ==
+  /\ eph = "halve" /\ epos > Len(ework)
+  /\ \E i \in 1..Len(ework) : ework[i].v = 0
+  /\ LET kept == SelectSeq(ework, LAMBDA e : e.v # 0)
+     IN ~SortedVals([i \in 1..Len(kept) |-> kept[i].v])
+
 \* per-backend counters stay within capacity
 CountersBounded == \A c \in Ctrs : Cardinality({k \in Keys : ctr[c][k] > 0}) <= Cap
 =============================================================================
